@@ -3,7 +3,8 @@
 // identity (Content-Length) body and a consumer that drains it the way Client::sendMoreRequestBody() does.
 // With <n> = "-" the body size is unknown (chunked client body): the producer appends already de-chunked bytes
 // through a BodyPipeCheckout as ConnStateData::handleChunkedRequestBody() does (limited by potentialSpaceSize()),
-// and "ef" (last-chunk parsed) ends production with stopProducingFor(pipe, true) once everything was appended.
+// and "ef" (last-chunk parsed) ends production with stopProducingFor(pipe, true) once everything was appended;
+// "s:" data given after "ef" lies behind the last-chunk and is never appended.
 // One case per line:  pipe <n|-> <op>...   with ops
 //   s:<hex>  client bytes arrive (inBuf.append; putMoreData; consumeInput)      = model event QSeg
 //   sp       BodyProducer::noteMoreBodySpaceAvailable -> putMoreData again      = QSpace
@@ -101,7 +102,11 @@ static std::string run_case(const std::vector<std::string> &w) {
     };
     for (size_t i = 2; i < w.size(); ++i) {
         const std::string &op = w[i];
-        if (op.rfind("s:", 0) == 0) { inbuf += unhex(op.substr(2)); intake(); }
+        if (op.rfind("s:", 0) == 0) {
+            // bytes that arrive after the last-chunk ("ef") are not part of this body: they stay unread
+            if (known || !eofPending) inbuf += unhex(op.substr(2));
+            intake();
+        }
         else if (op == "sp") intake();
         else if (op == "ef" && !known) { if (producing != nullptr) { eofPending = true; intake(); } }
         else if (op == "ab") { if (producing != nullptr) { prod->stop(producing, false); inbuf.clear(); } }
